@@ -787,7 +787,7 @@ for _n in range(0, 4):
     SPECS['exists/%d' % _n] = spec_quant('exists', _n)
     SPECS['all/%d' % _n] = spec_quant('all', _n)
 for _op in ('aln', 'amn', 'exn'):
-    for _n in range(0, 5):
+    for _n in range(0, 6):
         SPECS['%s/%d' % (_op, _n)] = spec_count_const(_op, _n)
 for _op in ('count_leq', 'count_lt', 'count_geq', 'count_gt', 'count_eq'):
     for _a in range(0, 4):
